@@ -50,6 +50,7 @@ V(ok, name) == IF ok THEN {} ELSE {name}
 
 Slack == <<0, 20000000>>        \* 20 ms: "a small slack" of wait_timeout
 Prompt == <<0, 120000000>>      \* "roughly a tenth of a second" after the exit (+ slack)
+AtOnce == <<0, 100000>>         \* "immediately": no sleeping, no waiting -- only the time the library's own code takes
 
 IsStatus(r) == r.k \in {"exited", "signaled", "undetermined", "other"}
 Observed == known # NoSt
@@ -105,6 +106,9 @@ ApiRet(o, res, t) ==
          deadline == TAdd(t0, opD)
      IN viol' = viol
        \cup V(res.k # "panic", "C09_panic")
+       \cup V(o \in {"poll", "wait_timeout"} => res.k # "panic", "C11_panic")
+       \cup V(o \in SignalOps => res.k # "panic", "C10_panic")
+       \cup V(o = "drop" => res.k # "panic", "C12_panic")
        \* ---- C09
        \cup V(o \in StatusOps /\ IsStatus(res) => cst # "running", "C09_not_early")
        \cup V(o \in StatusOps /\ res.k \in {"exited", "signaled"} => st = truth /\ cst = "reaped_us", "C09_truth")
@@ -135,11 +139,11 @@ ApiRet(o, res, t) ==
        \cup V(o \in {"wait_timeout", "poll", "wait"} /\ told => IsStatus(res), "C09_status_once_the_os_said_gone")
        \cup V(o = "wait_timeout" /\ IsStatus(res) /\ exitT # NoTime /\ knownAtCall = NoSt
                 => TLe(t, TAdd(TMax(t0, exitT), Prompt)), "C11_prompt")
-       \cup V(o \in {"poll", "wait", "wait_timeout"} /\ knownAtCall # NoSt => nsys = 0 /\ t = t0, "C11_known_at_once")
-       \cup V(o = "poll" => t = t0, "C11_poll_immediate")
+       \cup V(o \in {"poll", "wait", "wait_timeout"} /\ knownAtCall # NoSt => nsys = 0 /\ TLe(t, TAdd(t0, AtOnce)), "C11_known_at_once")
+       \cup V(o = "poll" => TLe(t, TAdd(t0, AtOnce)), "C11_poll_immediate")
        \* ---- C12 (the Popen itself)
        \cup V(o = "drop" /\ ~det => cst \notin {"running", "zombie"}, "C12_reaped")
-       \cup V(o = "drop" /\ det => nsys = 0 /\ t = t0, "C12_detached")
+       \cup V(o = "drop" /\ det => nsys = 0 /\ TLe(t, TAdd(t0, AtOnce)), "C12_detached")
   /\ UNCHANGED <<cst, truth, exitT, opD, opN, t0, knownAtCall, nwait, slept, nsys, nkill, killOk, told, eintr>>
 
 \* ---------------------------------------------------------------- system calls of the handle
